@@ -390,6 +390,8 @@ def run(ctx):
     rule_escaping(ctx)
     rule_driver(ctx)
     rule_handshake_errors(ctx)
+    from .common import rule_credentials_verbatim
+    rule_credentials_verbatim(ctx, "provenance")
     from .common import rule_instance_state
     rule_instance_state(ctx, ("aiokafka.conn.",))
     rep.nd("that a real server accepts the messages (HMAC / PBKDF2 values themselves)")
